@@ -366,6 +366,11 @@ func genC14(tier string, r *Rng, emit func(Case)) {
 		for k := range pat {
 			pat[k] = 1 + r.Intn(2)
 		}
+		if r.Intn(3) == 0 && len(raw) > 20 {
+			// a long pattern that does occur: a stretch of the text itself
+			at := r.Intn(len(raw) - 16)
+			pat = append([]int(nil), raw[at:at+r.Pick([]int{8, 9, 10, 12, 16})]...)
+		}
 		pat2 := make([]int, len(pat))
 		for k := range pat2 {
 			pat2[k] = 3 - pat[k]
@@ -396,6 +401,14 @@ func genC14(tier string, r *Rng, emit func(Case)) {
 		emit(Case{Ver: "v3", Op: "AliasTest", Args: t})
 	}
 	genAliasList(r, emit, n/2)
+	// print calls receive their options as a window of a longer caller-owned slice (runSprint checks behind it)
+	k := 0
+	generators["C10"]("quick", r, func(c Case) {
+		if c.Op == "Sprint" && k < n && r.Intn(6) == 0 {
+			k++
+			emit(c)
+		}
+	})
 	// every search entry point with the pattern passed as a window of a longer caller-owned slice (runFind checks the
 	// slice around and, for the eager functions, inside the window afterwards)
 	for i := 0; i < 2*n; i++ {
@@ -414,5 +427,5 @@ func genC14(tier string, r *Rng, emit func(Case)) {
 
 func init() {
 	register("C14", genC14, map[string]runner{"AliasCtor": runAliasCtor, "AliasPat": runAliasPat, "AliasTest": runAliasTest,
-		"AliasList": runAliasList, "Hist": runC11Hist, "Find": runFind})
+		"AliasList": runAliasList, "Hist": runC11Hist, "Find": runFind, "Sprint": runSprint})
 }
